@@ -11,6 +11,7 @@ Per generated model (JSON description -> real Python source -> real `Model`):
 from __future__ import annotations
 
 import ast
+import atexit
 import itertools
 import json
 import math
@@ -26,6 +27,9 @@ from vlib.framework import REPO, WORK
 
 PROPS = ["MxlVerif.Props.C08"]
 SCRATCH = WORK / "c08"
+# IPython (pulled in by a dependency) keeps a history database in $IPYTHONDIR: parallel checks must not share it
+os.environ.setdefault("IPYTHONDIR", str(WORK / f"ipython-{os.getpid()}"))
+atexit.register(shutil.rmtree, WORK / f"ipython-{os.getpid()}", ignore_errors=True)  # runs after IPython's own hook
 TOL = 1e-9
 
 UOPS = {"USub": "-", "Not": "not ", "UAdd": "+", "Invert": "~"}
